@@ -113,6 +113,7 @@ S0 = ml.mock_station_from_geoid(
 S1 = ml.mock_station_from_geoid("s1", CELL_B, chargers={"LEVEL_2": 1}, env=ENV0)
 B0 = ml.mock_base_from_geoid("b0", CELL_B, station_id="s1", stall_count=3)
 B1 = ml.mock_base_from_geoid("b1", CELL_E, station_id=None, stall_count=1)
+B2 = ml.mock_base_from_geoid("b2", CELL_F, station_id="s0", stall_count=1)  # a base whose station stands elsewhere (s0 @ A)
 R0 = ml.mock_request_from_geoids("r0", CELL_C, CELL_D, value=7)
 R1 = ml.mock_request_from_geoids("r1", CELL_C, CELL_F, value=5)
 RB = ml.mock_request_from_geoids("rb", CELL_C, CELL_D, value=9)  # the request already on board
@@ -121,7 +122,7 @@ V1 = ml.mock_vehicle_from_geoid("v1", CELL_A)
 V2 = ml.mock_vehicle_from_geoid("v10", CELL_A)  # lexicographic trap: "v10" < "v2"
 V0_ICE = ml.mock_vehicle_from_geoid("v0", CELL_A, mechatronics=ICE)
 
-SIM0 = ml.mock_sim(stations=(S0, S1), bases=(B0, B1), h3_search_res=SEARCH_RES)
+SIM0 = ml.mock_sim(stations=(S0, S1), bases=(B0, B1, B2), h3_search_res=SEARCH_RES)
 T0 = SIM0.sim_time
 UUID0 = uuid.UUID(int=7)
 
@@ -426,8 +427,8 @@ def build_world(
     w.tot = totals
     w.ghost_c = {("s0", "LEVEL_2"): g_l2, ("s0", "DCFC"): g_dc, ("s0", "gas_pump"): 0, ("s1", "LEVEL_2"): s1_g}
     w.ghost_q = {("s0", "LEVEL_2"): q_l2, ("s0", "DCFC"): q_dc, ("s0", "gas_pump"): 0, ("s1", "LEVEL_2"): 0}
-    w.stall_tot = {"b0": stall_tot, "b1": 1}
-    w.stall_ghost = {"b0": stall_g, "b1": 0}
+    w.stall_tot = {"b0": stall_tot, "b1": 1, "b2": 1}
+    w.stall_ghost = {"b0": stall_g, "b1": 0, "b2": 0}
     w.r0_disp = r0_disp
     w.vids = tuple(sp.vid for sp in specs)
     return w
@@ -450,10 +451,11 @@ INSTR_NAMES = (
     "DispatchTrip_missing",
     "ChargeBase_b1",
     "DispatchPoolingTrip",
+    "ChargeBase_b2",
 )
 N_INSTR = len(INSTR_NAMES)
 # kind the instruction leads to when accepted (DispatchStation may shortcut to ChargingStation)
-INSTR_TARGET_KIND = {0: (0,), 1: (9,), 2: (7, 3), 3: (3,), 4: (6,), 5: (8,), 6: (5,), 7: (1,), 8: (2,), 9: (7, 3), 10: (3,), 11: (8,), 12: (5,), 13: (9,), 14: (6,), 15: (12,)}
+INSTR_TARGET_KIND = {0: (0,), 1: (9,), 2: (7, 3), 3: (3,), 4: (6,), 5: (8,), 6: (5,), 7: (1,), 8: (2,), 9: (7, 3), 10: (3,), 11: (8,), 12: (5,), 13: (9,), 14: (6,), 15: (12,), 16: (6,)}
 
 
 def instruction(ik: int, plug: str, vid="v0"):
@@ -489,6 +491,8 @@ def instruction(ik: int, plug: str, vid="v0"):
         return ChargeBaseInstruction(vid, "b1", plug)
     if ik == 15:
         return DispatchPoolingTripInstruction(vid, (("r0", TripPhase.PICKUP), ("r0", TripPhase.DROPOFF)))
+    if ik == 16:
+        return ChargeBaseInstruction(vid, "b2", plug)
     return None
 
 from vf.h import arena_meta as _M
